@@ -4,6 +4,7 @@ import (
 	"fmt"
 	"go/constant"
 	"go/token"
+	"go/types"
 
 	"golang.org/x/tools/go/ssa"
 )
@@ -48,26 +49,41 @@ type CutQuery struct {
 
 // Cut answers: is any target reachable from q.From without crossing an accepting edge or instruction?
 // It returns the first reachable target and the branch decisions leading to it.
+//
+// The search is path-insensitive except for two cheap, sound refinements:
+//   - a block whose branch condition is (a comparison of) a phi defined in that block is evaluated per predecessor: the
+//     incoming operand replaces the phi (short-circuit joins `a && b`, results threaded through `if res == OK { res = next() }`);
+//     a constant incoming operand decides the branch;
+//   - an edge whose atom contradicts a fact established by the edge taken immediately before (same SSA values, opposite
+//     relation) is infeasible.
 func Cut(q CutQuery) (ssa.Instruction, []Step) {
-	// Blocks whose branch condition is a phi defined in the block itself (the join of a short-circuit `a && b` / `a || b`
-	// evaluated as a value) are visited once per predecessor: coming from a predecessor whose incoming value is a
-	// constant only one successor is feasible, and otherwise the edge carries the incoming value's atom.
 	type key struct {
-		b    *ssa.BasicBlock
-		pred int
+		b     *ssa.BasicBlock
+		pred  int
+		facts string
 	}
 	type node struct {
 		b      *ssa.BasicBlock
 		idx    int
 		pred   int // index into b.Preds of the edge taken into b; -1 if irrelevant/unknown
+		facts  []*Atom
 		parent int
 		via    Step
 	}
+	factsKey := func(fs []*Atom) string {
+		k := ""
+		for _, f := range fs {
+			if f != nil {
+				k += f.String() + ";"
+			}
+		}
+		return k
+	}
 	var nodes []node
 	visited := map[key]bool{}
-	nodes = append(nodes, node{q.From.Block, q.From.Idx, -1, -1, Step{}})
+	nodes = append(nodes, node{q.From.Block, q.From.Idx, -1, nil, -1, Step{}})
 	if q.From.Idx == 0 {
-		visited[key{q.From.Block, -1}] = true
+		visited[key{q.From.Block, -1, ""}] = true
 	}
 	for qi := 0; qi < len(nodes); qi++ {
 		n := nodes[qi]
@@ -89,39 +105,199 @@ func Cut(q CutQuery) (ssa.Instruction, []Step) {
 		if blocked {
 			continue
 		}
-		phi, neg := phiCond(n.b)
+		// facts of the incoming edge that still speak about the same dynamic values (not redefined in this block)
+		var facts []*Atom
+		for _, f := range n.facts {
+			if f != nil && !definedIn(f.LV, n.b) && !definedIn(f.RV, n.b) {
+				facts = append(facts, f)
+			}
+		}
 		for si, s := range n.b.Succs {
-			a := EdgeAtom(n.b, si)
-			if phi != nil && n.pred >= 0 && n.pred < len(phi.Edges) {
-				in := phi.Edges[n.pred]
-				want := (si == 0) != neg // the value the incoming operand must have for this successor
-				if k, ok := in.(*ssa.Const); ok && k.Value != nil && k.Value.Kind() == constant.Bool {
-					if constant.BoolVal(k.Value) != want {
-						continue // infeasible on this path
-					}
-					a = nil
-				} else {
-					a = CondAtom(in, want)
+			a0 := EdgeAtom(n.b, si)
+			a1, feasible := substPhiCond(n.b, si, n.pred)
+			if !feasible {
+				continue
+			}
+			infeasible := false
+			for _, f := range facts {
+				if contradicts(f, a0) || contradicts(f, a1) {
+					infeasible = true
 				}
 			}
-			if a != nil && q.AcceptEdge != nil && q.AcceptEdge(n.b, si, a) {
+			if infeasible {
 				continue
 			}
-			if a == nil && q.AcceptEdge != nil && q.AcceptEdge(n.b, si, nil) {
-				continue
+			a := a0
+			if a1 != nil {
+				a = a1
+			}
+			if q.AcceptEdge != nil {
+				if q.AcceptEdge(n.b, si, a) || (a1 != nil && a0 != nil && q.AcceptEdge(n.b, si, a0)) {
+					continue
+				}
 			}
 			pi := -1
-			if p2, _ := phiCond(s); p2 != nil {
+			if hasPhiCond(s) {
 				pi = predIndex(n.b, si)
 			}
-			if visited[key{s, pi}] {
+			var nf []*Atom
+			fk := ""
+			if endsInIf(s) {
+				if a0 != nil {
+					nf = append(nf, a0)
+				}
+				if a1 != nil {
+					nf = append(nf, a1)
+				}
+				fk = factsKey(nf)
+			}
+			if visited[key{s, pi, fk}] {
 				continue
 			}
-			visited[key{s, pi}] = true
-			nodes = append(nodes, node{s, 0, pi, qi, Step{n.b, si, a}})
+			visited[key{s, pi, fk}] = true
+			nodes = append(nodes, node{s, 0, pi, nf, qi, Step{n.b, si, a}})
 		}
 	}
 	return nil, nil
+}
+
+func endsInIf(b *ssa.BasicBlock) bool {
+	if len(b.Instrs) == 0 {
+		return false
+	}
+	_, ok := b.Instrs[len(b.Instrs)-1].(*ssa.If)
+	return ok
+}
+
+func definedIn(v ssa.Value, b *ssa.BasicBlock) bool {
+	if v == nil {
+		return false
+	}
+	if ins, ok := v.(ssa.Instruction); ok {
+		return ins.Block() == b
+	}
+	return false
+}
+
+// contradicts reports whether f and a cannot both hold (same operands, complementary relation).
+func contradicts(f, a *Atom) bool {
+	if f == nil || a == nil {
+		return false
+	}
+	same := func(x, y ssa.Value) bool {
+		if x == y {
+			return true
+		}
+		kx, ok1 := x.(*ssa.Const)
+		ky, ok2 := y.(*ssa.Const)
+		return ok1 && ok2 && Term(kx) == Term(ky) && types.Identical(kx.Type(), ky.Type())
+	}
+	switch {
+	case (f.Op == "true" && a.Op == "false") || (f.Op == "false" && a.Op == "true"):
+		return same(f.LV, a.LV)
+	case (f.Op == "==" && a.Op == "!=") || (f.Op == "!=" && a.Op == "=="):
+		return (same(f.LV, a.LV) && same(f.RV, a.RV)) || (same(f.LV, a.RV) && same(f.RV, a.LV))
+	case (f.Op == "<" && a.Op == "<=") || (f.Op == "<=" && a.Op == "<"):
+		// l < r  contradicts  r <= l
+		return same(f.LV, a.RV) && same(f.RV, a.LV)
+	}
+	return false
+}
+
+// hasPhiCond: the block branches on (a comparison of) a phi defined in the block itself.
+func hasPhiCond(b *ssa.BasicBlock) bool {
+	if p, _ := phiCond(b); p != nil {
+		return true
+	}
+	_, _, _, ok := cmpPhi(b)
+	return ok
+}
+
+// cmpPhi: the block's branch condition is a comparison one operand of which is a phi defined in the block.
+func cmpPhi(b *ssa.BasicBlock) (bin *ssa.BinOp, phi *ssa.Phi, neg bool, ok bool) {
+	if !endsInIf(b) {
+		return nil, nil, false, false
+	}
+	c := b.Instrs[len(b.Instrs)-1].(*ssa.If).Cond
+	for {
+		if u, isU := c.(*ssa.UnOp); isU && u.Op == token.NOT {
+			c = u.X
+			neg = !neg
+			continue
+		}
+		break
+	}
+	bo, isB := c.(*ssa.BinOp)
+	if !isB {
+		return nil, nil, false, false
+	}
+	switch bo.Op {
+	case token.EQL, token.NEQ, token.LSS, token.LEQ, token.GTR, token.GEQ:
+	default:
+		return nil, nil, false, false
+	}
+	if p, isP := bo.X.(*ssa.Phi); isP && p.Block() == b {
+		return bo, p, neg, true
+	}
+	if p, isP := bo.Y.(*ssa.Phi); isP && p.Block() == b {
+		return bo, p, neg, true
+	}
+	return nil, nil, false, false
+}
+
+// substPhiCond evaluates b's branch towards successor si for a path that entered b through predecessor edge pred:
+// the atom with the phi replaced by its incoming operand (nil if not applicable), and whether the edge is feasible.
+func substPhiCond(b *ssa.BasicBlock, si int, pred int) (*Atom, bool) {
+	if pred < 0 {
+		return nil, true
+	}
+	if phi, neg := phiCond(b); phi != nil && pred < len(phi.Edges) {
+		in := phi.Edges[pred]
+		want := (si == 0) != neg
+		if k, ok := in.(*ssa.Const); ok && k.Value != nil && k.Value.Kind() == constant.Bool {
+			return nil, constant.BoolVal(k.Value) == want
+		}
+		return CondAtom(in, want), true
+	}
+	bo, phi, neg, ok := cmpPhi(b)
+	if !ok || pred >= len(phi.Edges) {
+		return nil, true
+	}
+	in := phi.Edges[pred]
+	x, y := bo.X, bo.Y
+	if x == ssa.Value(phi) {
+		x = in
+	}
+	if y == ssa.Value(phi) {
+		y = in
+	}
+	want := (si == 0) != neg
+	kx, okx := x.(*ssa.Const)
+	ky, oky := y.(*ssa.Const)
+	if okx && oky && kx.Value != nil && ky.Value != nil {
+		return nil, constant.Compare(kx.Value, bo.Op, ky.Value) == want
+	}
+	if okx && oky && bo.Op == token.EQL || okx && oky && bo.Op == token.NEQ {
+		// nil constants
+		eq := kx.Value == nil && ky.Value == nil
+		return nil, (eq == (bo.Op == token.EQL)) == want
+	}
+	var op string
+	switch bo.Op {
+	case token.EQL:
+		op = "=="
+	case token.NEQ:
+		op = "!="
+	case token.LSS:
+		op = "<"
+	case token.LEQ:
+		op = "<="
+	case token.GTR:
+		op = ">"
+	case token.GEQ:
+		op = ">="
+	}
+	return Normalise(op, Term(x), Term(y), x, y, want), true
 }
 
 // phiCond returns the phi (defined in b) that b's terminating If branches on, and whether it is negated.
